@@ -250,6 +250,25 @@ class CallMixin:
             r = fresh("rand", T.R)
             self._assume(p, z3.And(r >= 0, r < 1))
             return T.sv_real(r)
+        if name == "random.seed":
+            for a in e.args:
+                self.ev(a, p)
+            return T.sv_none()
+        if name == "random.sample" and len(e.args) == 2 and not e.keywords:
+            # random.sample(population, k): k positions of the population without replacement, as a list (ValueError when k is negative or
+            # exceeds the population); for a population of node labels the result is a node tuple
+            pop = self.ev(e.args[0], p)
+            k = self.coerce(self.ev(e.args[1], p), T.INT).t
+            if not (isinstance(pop.ty, T.Bag) and pop.ty.e == T.INT):
+                raise Unsupported(f"random.sample over {pop.ty}")
+            bt = pop.ty
+            self._raise_if(p, z3.Or(k < 0, k > bt.blen()(pop.t)), "ValueError", f"line {e.lineno}")
+            t = fresh("sample", T.TupS)
+            n, x = fresh("n", T.I), fresh("x", T.I)
+            self._assume(p, TH.tlen(t) == k)
+            self._assume(p, z3.ForAll([n], z3.Implies(TH.tmem(t, n), pop.t[n] >= 1), patterns=[TH.tmem(t, n)]))
+            self._assume(p, z3.Implies(z3.ForAll([x], pop.t[x] <= 1, patterns=[pop.t[x]]), TH.distinct_t(t)))
+            return T.scalar(T.TUP, t)
         return None
 
     def rng_choice(self, e, p):
